@@ -61,6 +61,8 @@ class ProtocolHandler:
         if not handler:
             # Get ID if available (not on notifications)
             msg_id = getattr(message, "id", None)
+            if msg_id is None:
+                return None, None  # notifications never get a response
             return self.create_error_response(
                 msg_id, -32601, f"Method not found: {method}"
             ), None
@@ -71,6 +73,8 @@ class ProtocolHandler:
             logging.error(f"Handler error for {method}: {e}")
             # Get ID if available (not on notifications)
             msg_id = getattr(message, "id", None)
+            if msg_id is None:
+                return None, None  # notifications never get a response
             return self.create_error_response(
                 msg_id, -32603, f"Internal error: {str(e)}"
             ), None
@@ -101,6 +105,10 @@ class ProtocolHandler:
         self, message: JSONRPCMessage, session_id: Optional[str]
     ):
         """Handle initialized notification."""
+        msg_id = getattr(message, "id", None)
+        if msg_id is not None:
+            # Sent as a request (with an id): every request gets a response
+            return self.create_response(msg_id, {}), None
         return None, None  # Notifications don't return responses
 
     async def _handle_ping(self, message: JSONRPCMessage, session_id: Optional[str]):
